@@ -1,5 +1,35 @@
 import XsVerif.Driver.Util
-open Lean XsVerif.Driver
+import XsVerif.Model.Paths
+open Lean XsVerif.Driver XsVerif.Paths
 
--- stub: replaced when the model of C19 lands
-def main : IO Unit := XsVerif.Driver.run fun _ => .error "C19 driver not implemented"
+namespace XsVerif.Driver.C19
+
+partial def parseT (j : Json) : Except String T := do
+  let tag ← getStr j "t"
+  let ch ← (← getArr j "c").toList.mapM parseT
+  return .node tag ch
+
+def stepStr (s : Step) : String :=
+  match s.pos with
+  | none => s.name
+  | some k => s.name ++ "[" ++ toString k ++ "]"
+
+def posJson (p : List Nat) : Json := Json.arr (p.map fun n => Json.num (JsonNumber.fromNat n)).toArray
+
+/-- request: a tree and a list of positions; answer per position: the path text and what it selects -/
+def handle (j : Json) : Except String Json := do
+  let t ← parseT (← j.getObjVal? "tree")
+  let ps ← (← getArr j "pos").toList.mapM fun p => do
+    let a ← p.getArr?
+    a.toList.mapM (·.getNat?)
+  let out := ps.map fun p =>
+    match getPath t p with
+    | none => Json.mkObj [("path", Json.null), ("sel", Json.arr #[])]
+    | some pp =>
+      let text := "/" ++ pp.1 ++ String.join (pp.2.map fun s => "/" ++ stepStr s)
+      Json.mkObj [("path", text), ("sel", Json.arr ((selectAbs t pp).map posJson).toArray)]
+  return Json.mkObj [("r", Json.arr out.toArray)]
+
+end XsVerif.Driver.C19
+
+def main : IO Unit := XsVerif.Driver.run XsVerif.Driver.C19.handle
